@@ -136,3 +136,44 @@ Theorem closest_returns_an_argument : forall t a b,
   (time_closest t a b = a \/ time_closest t a b = b) /\ (time_farthest t a b = a \/ time_farthest t a b = b).
 Proof. exact closest_returns_argument. Qed.
 Print Assumptions closest_returns_an_argument.
+
+(* ---- THE MODEL IS THE CODE (method bodies of Time).  Gen/TimeMethods.v is translated WHOLE from /repo's src/pendulum/time.py on every run
+   (tools/vlib/pyfloat2gallina.py + gens/g56_time_methods.py): Time.add / subtract (the call chain DateTime.EPOCH.at(h, m, s, us).add(..).time()
+   read as the model's primitive dt_add_time, with .subtract(..) = every unit negated), add_timedelta / subtract_timedelta (guard, then which
+   arguments reach self.add / self.subtract), diff with dt given (time_rebuild, us2 - us1, Duration / AbsoluteDuration by `abs`: what the result
+   reports), and __add__ / __sub__ / __rsub__ once per class of `other` (timedelta, naive time, aware time, anything else) with their isinstance
+   tests decided from that class.  The hand model Model/TimeOfDay.v, about which every theorem above speaks, EQUALS that translation for all
+   arguments.  (closest / farthest, the guards' argument tuples and diff's us1 / us2 are translated by g70 into Gen/TimeArith.v.) *)
+From PV Require Import Gen.TimeMethods Proofs.TimeMethodsFacts.
+
+Theorem model_is_code_time_add : forall t h m s us, gen_Time_add t h m s us = time_add t h m s us.
+Proof. exact gen_Time_add_eq. Qed.
+Print Assumptions model_is_code_time_add.
+
+Theorem model_is_code_time_subtract : forall t h m s us, gen_Time_subtract t h m s us = time_subtract t h m s us.
+Proof. exact gen_Time_subtract_eq. Qed.
+Print Assumptions model_is_code_time_subtract.
+
+Theorem model_is_code_time_add_timedelta : forall t d, gen_Time_add_timedelta t d = time_add_timedelta t d.
+Proof. exact gen_Time_add_timedelta_eq. Qed.
+Print Assumptions model_is_code_time_add_timedelta.
+
+Theorem model_is_code_time_subtract_timedelta : forall t d, gen_Time_subtract_timedelta t d = time_subtract_timedelta t d.
+Proof. exact gen_Time_subtract_timedelta_eq. Qed.
+Print Assumptions model_is_code_time_subtract_timedelta.
+
+Theorem model_is_code_time_diff : forall t dt abs, gen_Time_diff t dt abs = time_diff_total t dt abs.
+Proof. exact gen_Time_diff_eq. Qed.
+Print Assumptions model_is_code_time_diff.
+
+(* t + timedelta, t - timedelta, t - naive time, naive time - t; an aware time raises TypeError; any other operand: NotImplemented *)
+Theorem model_is_code_time_operators : forall t,
+  (forall d, gen_Time___add___timedelta t d = time_add_timedelta t d) /\
+  (forall d, gen_Time___sub___timedelta t d = time_subtract_timedelta t d) /\
+  (forall o, gen_Time___sub___time t o = time_op_sub t o) /\
+  (forall o, gen_Time___rsub___time t o = time_op_rsub t o) /\
+  (forall o, gen_Time___sub___atime t o = Raise E_TypeError /\ gen_Time___rsub___atime t o = Raise E_TypeError) /\
+  (forall x, gen_Time___add___foreign t x = Raise E_NotImplemented /\ gen_Time___sub___foreign t x = Raise E_NotImplemented
+             /\ gen_Time___rsub___foreign t x = Raise E_NotImplemented).
+Proof. exact gen_Time_operators_eq. Qed.
+Print Assumptions model_is_code_time_operators.
